@@ -100,6 +100,9 @@ type c14Desc struct {
 	actPu   []uint64
 	asis    map[string]float64
 	w       *c14World
+	dataset J                   // the data set as the (as-is) model instance holds it: catchInst.export
+	served  []J                 // sampled GET /model answers: served action set, six totals (grid integers), validity
+	seenSrv map[string]bool
 	invalid map[string]string   // bit strings of the reached sets whose fresh instance is invalid -> token of its error text
 	fresh   map[string]c14Fresh // bit string -> fresh evaluation
 }
@@ -170,6 +173,11 @@ func (w *c14World) tomlView(text string) (view J) {
 		return view
 	}
 	d := &c14Desc{id: len(w.dlist), text: text, config: config, asis: map[string]float64{}, invalid: map[string]string{}, fresh: map[string]c14Fresh{}, w: w}
+	d.seenSrv = map[string]bool{}
+	inst := &catchInst{m: &cm.CoreModel, prm: config.Model.Parameters}
+	inst.pus = cm.PlanningUnits()
+	inst.nact = len(cm.ManagementActions())
+	d.dataset = inst.export("ds" + strconv.Itoa(d.id))
 	for _, a := range cm.ManagementActions() {
 		d.actions = append(d.actions, [2]string{strconv.FormatUint(uint64(a.PlanningUnit()), 10), string(a.Type())})
 		d.actPu = append(d.actPu, uint64(a.PlanningUnit()))
@@ -241,6 +249,52 @@ func (d *c14Desc) freshEval(bits []bool) c14Fresh {
 		d.invalid[key] = tok
 	}
 	return f
+}
+
+// sampleServed: the first c14ServedCap distinct (scenario, action set) pairs served by GET /model are exported with the six
+// served totals as grid integers; Coq recomputes them from the exported data set (EngineCatchment.served_ok).
+var c14ServedCap = 40
+
+func (w *c14World) sampleServed(d *c14Desc, bits []bool, vars interface{}, attrs [][]interface{}) {
+	key := c14BitKey(bits)
+	if d.seenSrv[key] || w.stats["served_samples"] >= c14ServedCap {
+		return
+	}
+	arr, ok := vars.([]interface{})
+	if !ok {
+		return
+	}
+	totals := make([]int64, len(catchVarNames))
+	found := 0
+	for _, e := range arr {
+		obj, _ := e.(map[string]interface{})
+		name, _ := obj["Name"].(string)
+		text, _ := obj["Value"].(string)
+		f, err := strconv.ParseFloat(strings.ReplaceAll(text, ",", ""), 64)
+		if err != nil {
+			return
+		}
+		for k, n := range catchVarNames {
+			if n == name {
+				totals[k] = int64(math.Round(f * catchVarScale[k]))
+				found++
+			}
+		}
+	}
+	if found != len(catchVarNames) {
+		return
+	}
+	var valid interface{}
+	for _, a := range attrs {
+		if a[0] == "ValidAgainstScenario" {
+			if val, _ := a[1].(J); val != nil {
+				valid = val["b"]
+			}
+		}
+	}
+	d.seenSrv[key] = true
+	w.stats["served_samples"]++
+	d.served = append(d.served, J{"bits": key, "totals": totals, "valid": valid})
 }
 
 // bitsOf: the action set a served ActiveManagementActions map denotes; ok=false if it names an unknown action.
@@ -651,12 +705,17 @@ func (w *c14World) project(routeKind string, r c15Resp, d *c14Desc) J {
 		if id, has := x["Id"].(string); has {
 			m, ok := c14ActionMap(x["ActiveManagementActions"])
 			varsOk := false
+			var servedBits []bool
 			if d != nil && ok {
 				if bits, okb := d.bitsOf(m); okb {
 					varsOk = d.freshEval(bits).vars == c14Canon(x["DecisionVariables"])
+					servedBits = bits
 				}
 			}
 			attrs, ok2 := w.attrs(x["Attributes"])
+			if routeKind == "model" && servedBits != nil && ok2 {
+				w.sampleServed(d, servedBits, x["DecisionVariables"], attrs)
+			}
 			if !ok || !ok2 || len(x) != 4 {
 				return other("malformed solution document")
 			}
@@ -942,7 +1001,8 @@ func (w *c14World) finish() {
 		for _, n := range names {
 			asis = append(asis, []interface{}{n, flOf(d.asis[n])})
 		}
-		emit(J{"kind": "desc", "id": d.id, "actions": d.actions, "pus": d.puIds, "asis": asis, "invalid": inv, "nfresh": len(d.fresh)})
+		emit(J{"kind": "desc", "id": d.id, "actions": d.actions, "pus": d.puIds, "asis": asis, "invalid": inv, "nfresh": len(d.fresh),
+			"dataset": d.dataset, "served": d.served})
 	}
 	// float -> planningunit.Id as this binary performs it
 	for _, f := range []float64{0, 17, 17.5, 17.999, -0.5, -1, -17, 1e18, 9223372036854775807, 9223372036854775808, 1.5e19, 1.8446744073709552e19, 1e30, -9.3e18, -1e30,
@@ -1382,6 +1442,7 @@ func runC14(args []string) {
 	nseq, maxLen, ntriple := 110, 20, 14
 	if tier == "thorough" {
 		nseq, maxLen, ntriple = 700, 40, 100
+		c14ServedCap = 400
 	}
 	for i := 0; i < nseq; i++ {
 		e := w.newEngine(fmt.Sprintf("seq-%d", i))
